@@ -121,12 +121,26 @@ fn do_arrive(w: &mut World, svc: &mut Svc, c: usize, single_handle: bool) {
     w.set_arrived(c, req, fut);
 }
 
+/// timeout value standing for `timeout_duration(Duration::MAX)`: always wait for a permit
+const WAIT_FOR_EVER: u64 = u64::MAX / 4;
+
 impl Rl {
     fn period(&self) -> u64 {
         PERIOD * self.scale
     }
     fn timeout_ms(&self) -> u64 {
-        self.timeout * self.scale
+        if self.timeout == WAIT_FOR_EVER {
+            WAIT_FOR_EVER
+        } else {
+            self.timeout * self.scale
+        }
+    }
+    fn timeout_dur(&self) -> Duration {
+        if self.timeout == WAIT_FOR_EVER {
+            Duration::MAX
+        } else {
+            Duration::from_millis(self.timeout_ms())
+        }
     }
     /// admissions that any implementation must count against a caller arriving now
     fn lookback(&self) -> u64 {
@@ -166,7 +180,7 @@ impl Scenario for Rl {
         let layer = RateLimiterLayer::builder()
             .limit_for_period(self.limit)
             .refresh_period(Duration::from_millis(self.period()))
-            .timeout_duration(Duration::from_millis(self.timeout_ms()))
+            .timeout_duration(self.timeout_dur())
             .window_type(self.window)
             .build();
         X { svc: layer.layer(GatedInner::new(w.inner.clone())), pre: None }
@@ -409,6 +423,8 @@ fn configs(prop: &'static str, tier: Tier) -> Vec<Rl> {
                 v.push(Rl { prop, window, limit, timeout, callers: 3, max_ticks: 18, max_drops: 0, late_ticks: 0, depth: Some(26), scale: 1, single_handle: false });
             }
         }
+        // "always wait": timeout_duration = Duration::MAX
+        v.push(Rl { prop, window, limit: 1, timeout: WAIT_FOR_EVER, callers: 3, max_ticks: tier.pick(9, 12), max_drops: 1, late_ticks: 0, depth: None, scale: 1, single_handle: false });
         // everything in the seconds range: period 4.04 s, timeouts 1.01 s and 6.06 s, on a 1.01 s grid
         for timeout in [10u64, 60] {
             v.push(Rl { prop, window, limit: 1, timeout, callers: 3, max_ticks: tier.pick(9, 12), max_drops: 1, late_ticks: 0, depth: None, scale: 101, single_handle: false });
